@@ -27,7 +27,10 @@ RULE = ("two generators on 2a, pack-0.92 and knit: (spec-dag) arbitrary revision
         "change on two branches), merge_from_branch of a tip or an older "
         "left-hand ancestor (criss-cross), conflicts kept or aborted, revert of "
         "some/all files after the merge, further edits before the commit, "
-        "cherry-pick (merge of one revision range), pull, kind changes. "
+        "cherry-pick (merge of one revision range), pull, kind changes, "
+        "octopus commits (two pending merges whose tips share a newer "
+        "version of an entry; spec-dag appends the same shape with 3-4 "
+        "parents). "
         "Non-trivial: the history contains a merge revision in which some file "
         "id has >= 2 per-file heads (fork), or whose single head comes from a "
         "merged parent (carried over, reverted, or changed after the merge), "
@@ -156,7 +159,49 @@ def spec_case(draw, tier="quick"):
         models[rid] = m
     if draw(st.integers(0, 4)) == 0:
         _append_resurrection(draw, spec, models, g)
+    if draw(st.integers(0, 2)) == 0:
+        _append_octopus(draw, spec, models, g)
     return {"fmt": draw(st.sampled_from(FORMATS)), "spec": spec}
+
+
+def _append_octopus(draw, spec, models, g):
+    """Three-parent merge in which both merged tips carry the SAME version of
+    some entries and that version is newer than the left-hand parent's: X
+    changes entries of its left parent P; T1 and T2 are children of X; L is a
+    sibling of X (child of P, nothing changed); M = merge(L, T1, T2) either
+    keeps L's tree (new versions with the single per-file parent X) or
+    replays X's edit (carried over, last-changed X)."""
+    cands = [r for r in spec["revs"] if r["parents"] and r["ops"]]
+    if not cands:
+        return
+    x = draw(st.sampled_from(cands))
+    p = x["parents"][0]
+    proto = spec["revs"][-1]
+
+    def mk(parents, ops):
+        i = len(spec["revs"])
+        rid = "r%d" % i
+        spec["revs"].append({
+            "id": rid, "parents": parents, "ghosts": [],
+            "ops": [list(o) for o in ops], "msg": "m%d" % i,
+            "ts": bz.T0 + 100 * i, "tz": 0, "committer": proto["committer"],
+            "props": {}})
+        m = tm.clone(models[parents[0]])
+        tm.apply_ops(m, ops)
+        models[rid] = m
+        g[rid] = tuple(parents)
+        return rid
+    left = mk([p], [])
+    t1 = mk([x["id"]], [])
+    t2 = mk([x["id"]], [])
+    if draw(st.booleans()):
+        # a fourth parent that also carries X's versions
+        t3 = mk([x["id"]], [])
+        tips = [t1, t2, t3]
+    else:
+        tips = [t1, t2]
+    how = draw(st.sampled_from(["keep-left", "adopt", "adopt"]))
+    mk([left] + tips, x["ops"] if how == "adopt" else [])
 
 
 def _append_resurrection(draw, spec, models, g):
@@ -285,7 +330,7 @@ def script_case(draw, tier="quick"):
               "".join(tm.LINES), False]
         tm.apply_op(m, op)
         base.append(op)
-    nbr = draw(st.sampled_from([2, 2, 3]))
+    nbr = draw(st.sampled_from([2, 3, 3]))
     ctr = [0]
     n = draw(st.integers(4, 9 if tier == "quick" else 14))
     steps = []
@@ -311,7 +356,38 @@ def script_case(draw, tier="quick"):
     for _ in range(n):
         k = draw(st.sampled_from(
             ["edit", "edit", "twin", "merge", "merge", "merge",
-             "merge", "merge", "cherry", "pull"]))
+             "merge", "merge", "cherry", "pull"] +
+            (["octo", "octo", "octo"] if nbr == 3 else [])))
+        if k == "octo":
+            # s1 changes entries (X); s2 takes X over (pull, or a merge when
+            # it has diverged); both add something of their own; dst then
+            # merges both tips in ONE commit (two pending merges)
+            dst = draw(b)
+            s1, s2 = [i for i in range(3) if i != dst]
+            if draw(st.booleans()):
+                s1, s2 = s2, s1
+            steps.append(["edit", s1, draw(
+                st.lists(_lop(ctr), min_size=1, max_size=2))])
+            tips[s1] = node([tips[s1]])
+            if tips[s2] in gm.ancestry(g, tips[s1]):
+                steps.append(["pull", s2, s1])
+                tips[s2] = tips[s1]
+            else:
+                steps.append(["merge", s2, s1, 0, "abort", None, []])
+                tips[s2] = node([tips[s2], tips[s1]])
+            for sx in (s1, s2):
+                ctr[0] += 1
+                steps.append(["edit", sx, [[
+                    "add", "n%d-id" % ctr[0], 0, "o%d" % ctr[0], "file",
+                    "octopus %d\n" % ctr[0], False]]])
+                tips[sx] = node([tips[sx]])
+            rv = draw(st.sampled_from(["none", "none", "some", "all"]))
+            revert = None if rv == "none" else "all" if rv == "all" else \
+                draw(st.lists(st.integers(0, 9), min_size=1, max_size=3))
+            steps.append(["octo", dst, s1, s2, revert,
+                          draw(st.lists(_lop(ctr), min_size=0, max_size=1))])
+            tips[dst] = node([tips[dst], tips[s1], tips[s2]])
+            continue
         if k in ("merge", "cherry", "pull", "twin"):
             dst = draw(b)
             src = draw(b)
